@@ -105,3 +105,56 @@ def nesting(e: tuple) -> int:
     if e[0] == "p":
         return (1 if e[1][0] != "n" else 0) + nesting(e[1])
     return max(nesting(e[1]), nesting(e[2]))
+
+
+def expansion(expr: str) -> int:
+    """Size estimate of the automaton the expression unfolds to: leaves count 1, sequences and choices add, a braced
+    range multiplies by its largest count (open ranges by min+1).  Nested counted groups multiply - `((a{2,3}){2,3}){2}`
+    is 18 copies of `a` - and that, not the length of the text, is what makes compilation slow."""
+    import re
+
+    toks = re.findall(r"\{[^}]*\}|[()|?*+]|[A-Za-z_][A-Za-z0-9_]*", expr)
+    i = 0
+
+    def p_expr() -> int:
+        nonlocal i
+        n = p_seq()
+        while i < len(toks) and toks[i] == "|":
+            i += 1
+            n += p_seq()
+        return n
+
+    def p_seq() -> int:
+        nonlocal i
+        n = 0
+        while i < len(toks) and toks[i] not in ("|", ")"):
+            n += p_sub()
+        return max(n, 1)
+
+    def p_sub() -> int:
+        nonlocal i
+        if toks[i] == "(":
+            i += 1
+            n = p_expr()
+            if i < len(toks) and toks[i] == ")":
+                i += 1
+        else:
+            i += 1
+            n = 1
+        while i < len(toks) and (toks[i] in ("?", "*", "+") or toks[i].startswith("{")):
+            t = toks[i]
+            i += 1
+            if t.startswith("{"):
+                nums = [int(x) for x in re.findall(r"\d+", t)]
+                if not nums:
+                    continue
+                k = nums[-1] if not t.rstrip("} ").endswith(",") else nums[0] + 1
+                n *= max(k, 1)
+            else:
+                n += 1
+        return n
+
+    try:
+        return p_expr()
+    except (IndexError, ValueError):
+        return 1
